@@ -119,6 +119,49 @@ def run(tier, seed):
           ("mirjalili", {"max_useful_life": 3, "useful_life_at_arrival_distribution_c_0": (1.0,)}, "kind=mirjalili m=3 c0len=1"),
           ("mirjalili", {"max_order_quantity": 0}, "kind=mirjalili Q=0"),
           ("mirjalili", {"max_useful_life": 2, "useful_life_at_arrival_distribution_c_0": (1.0,), "useful_life_at_arrival_distribution_c_1": (0.0,), "max_order_quantity": 1, "max_demand": 2}, "kind=mirjalili m=2 c0len=1 c1len=1 Q=1 D=2")]
+    # every documented field of every problem class at its boundary (valid) and just outside it (invalid), on small complete instances
+    from fractions import Fraction as _F
+    small = {"forest": {"S": 3, "p": 0.125},
+             "demoor": {"max_demand": 3, "max_useful_life": 1, "lead_time": 1, "max_order_quantity": 1, "demand_gamma_mean": 1.5, "demand_gamma_cov": 0.5, "issue_policy": "fifo"},
+             "hendrix": {"max_useful_life": 1, "max_order_quantity_a": 1, "max_order_quantity_b": 1, "demand_poisson_mean_a": 1.0, "demand_poisson_mean_b": 1.0, "substitution_probability": 0.5},
+             "mirjalili": {"max_demand": 2, "max_useful_life": 2, "max_order_quantity": 1, "useful_life_at_arrival_distribution_c_0": (0.5,),
+                           "useful_life_at_arrival_distribution_c_1": (-0.25,), "weekday_demand_negbin_n": (3.5, 11.0, 7.2, 11.1, 5.9, 5.5, 2.2),
+                           "weekday_demand_negbin_delta": (5.7, 6.9, 6.5, 6.2, 5.8, 3.3, 3.4)}}
+    mkey = {"forest": {"S": "S", "p": "p"},
+            "demoor": {"max_demand": "D", "max_useful_life": "m", "lead_time": "L", "max_order_quantity": "Q", "demand_gamma_mean": "mean", "demand_gamma_cov": "cov"},
+            "hendrix": {"max_useful_life": "m", "max_order_quantity_a": "Qa", "max_order_quantity_b": "Qb", "demand_poisson_mean_a": "meana",
+                        "demand_poisson_mean_b": "meanb", "substitution_probability": "rho"},
+            "mirjalili": {"max_demand": "D", "max_useful_life": "m", "max_order_quantity": "Q"}}
+
+    def margs_problem(k, kw):
+        a = [f"kind={k}"]
+        for f_, key in mkey[k].items():
+            a.append(f"{key}={frac(_F(kw[f_])) if isinstance(kw[f_], float) else kw[f_]}")
+        if k == "demoor":
+            a.append(f"issueok={1 if kw['issue_policy'] in ('fifo', 'lifo') else 0}")
+        if k == "mirjalili":
+            n_, d_ = kw["weekday_demand_negbin_n"], kw["weekday_demand_negbin_delta"]
+            a += [f"nlen={len(n_)}", f"npos={1 if all(x > 0 for x in n_) else 0}", f"dlen={len(d_)}", f"dpos={1 if all(x > 0 for x in d_) else 0}",
+                  f"c0len={len(kw['useful_life_at_arrival_distribution_c_0'])}", f"c1len={len(kw['useful_life_at_arrival_distribution_c_1'])}"]
+        return " ".join(a)
+
+    edits = {"forest": [{"S": 1}, {"S": 0}, {"S": -1}, {"p": 0.0}, {"p": 1.0}, {"p": -1e-9}, {"p": 1.000001}],
+             "demoor": [{"max_demand": 1}, {"max_demand": 0}, {"max_demand": -2}, {"max_useful_life": 0}, {"max_useful_life": 2}, {"lead_time": 0}, {"lead_time": 2},
+                        {"max_order_quantity": 0}, {"max_order_quantity": 2}, {"demand_gamma_mean": 0.0}, {"demand_gamma_mean": -1.0}, {"demand_gamma_cov": 0.0},
+                        {"demand_gamma_cov": 1.5}, {"issue_policy": "lifo"}, {"issue_policy": "FIFO"}, {"issue_policy": ""}],
+             "hendrix": [{"max_useful_life": 0}, {"max_useful_life": 2}, {"max_order_quantity_a": 0}, {"max_order_quantity_b": 0}, {"max_order_quantity_b": 2},
+                         {"demand_poisson_mean_a": 0.0}, {"demand_poisson_mean_b": 0.0}, {"demand_poisson_mean_b": -0.5}, {"substitution_probability": 0.0},
+                         {"substitution_probability": 1.0}, {"substitution_probability": -0.01}, {"substitution_probability": 1.01}],
+             "mirjalili": [{"max_demand": 1}, {"max_demand": 0}, {"max_order_quantity": 0}, {"max_order_quantity": 2},
+                           {"max_useful_life": 1, "useful_life_at_arrival_distribution_c_0": (), "useful_life_at_arrival_distribution_c_1": ()},
+                           {"max_useful_life": 0, "useful_life_at_arrival_distribution_c_0": (), "useful_life_at_arrival_distribution_c_1": ()},
+                           {"max_useful_life": 3}, {"useful_life_at_arrival_distribution_c_1": (0.1, 0.2)},
+                           {"weekday_demand_negbin_n": (3.5, 11.0, 7.2, 11.1, 5.9, 5.5)}, {"weekday_demand_negbin_n": (3.5, 11.0, 7.2, 11.1, 5.9, 5.5, 0.0)},
+                           {"weekday_demand_negbin_delta": (5.7, 6.9, 6.5, 6.2, 5.8, 3.3, 3.4, 1.0)}, {"weekday_demand_negbin_delta": (5.7, 6.9, 6.5, 6.2, 5.8, 3.3, -3.4)}]}
+    for k, es in edits.items():
+        for e_ in es:
+            kw = dict(small[k], **e_)
+            pc.append((k, kw, margs_problem(k, kw)))
     for k, kw, ma in pc:
         for via in ("config", "instance"):
             ops.append({"op": "pconstruct", "target": shipped.T[k], "kwargs": kw, "via": via, "model_args": ma})
